@@ -48,7 +48,7 @@ func (k keyedMap) Keys() []string {
 
 type indexedList struct{ a []any }
 
-func (l indexedList) ValueAtIndex(i int) any      { return l.a[i] }
+func (l indexedList) ValueAtIndex(i int) any       { return l.a[i] }
 func (l indexedList) SetValueAtIndex(i int, v any) { l.a[i] = v }
 func (l indexedList) Size() int                    { return len(l.a) }
 
